@@ -180,3 +180,25 @@ where
         write!(f, "lorawan_device::Event::{event}")
     }
 }
+
+#[cfg(feature = "verif-hooks")]
+impl<R, RNG, const N: usize, const D: usize> Device<R, RNG, N, D>
+where
+    R: PhyRxTx + Timings,
+    RNG: RngCore,
+{
+    /// Read-only projection of the MAC state for external verification harnesses.
+    pub fn verif_snapshot(&self) -> mac::VerifSnapshot {
+        self.shared.mac.verif_snapshot()
+    }
+
+    /// 0 = Idle, 1 = SendingData, 2 = WaitingForRxWindow, 3 = WaitingForRx
+    pub fn verif_state(&self) -> u8 {
+        match &self.state {
+            State::Idle(_) => 0,
+            State::SendingData(_) => 1,
+            State::WaitingForRxWindow(_) => 2,
+            State::WaitingForRx(_) => 3,
+        }
+    }
+}
